@@ -107,8 +107,9 @@ func (e *Encoder) appendArr(cm *ssa.CallCommon, args []Val, st *State, pc string
 		// reallocation: facts about the fresh array (keeps the offset), stated on the current maps
 		for li, lf := range leaves {
 			m := st.get(c, c.memKey(lf.t), c.memSort(lf.t))
-			c.assume(implies(and(pc, not(inplace)), fmt.Sprintf("(forall ((i!a %s)) (! (=> %s (= (select %s %s) (select %s %s))) :pattern ((select %s %s))))",
-				c.idx(), and(c.cmp("<=", intT, soff, "i!a"), c.cmp("<", intT, "i!a", start)), m, floc(newloc, "i!a", lf.path), m, floc(sbase, "i!a", lf.path), m, floc(newloc, "i!a", lf.path))))
+			// (the trigger is the location term alone: the memory may be a macro with an ite, which no pattern may contain)
+			c.assume(implies(and(pc, not(inplace)), fmt.Sprintf("(forall ((i!a %s)) (! (=> %s (= (select %s %s) (select %s %s))) :pattern (%s)))",
+				c.idx(), and(c.cmp("<=", intT, soff, "i!a"), c.cmp("<", intT, "i!a", start)), m, floc(newloc, "i!a", lf.path), m, floc(sbase, "i!a", lf.path), floc(newloc, "i!a", lf.path))))
 			for i := int64(0); i < as.at.Len(); i++ {
 				c.assume(implies(and(pc, not(inplace)), fmt.Sprintf("(= (select %s %s) %s)", m, floc(newloc, c.binopIdx("+", start, c.idxLit(i)), lf.path), vals[fmt.Sprintf("%d.%d", i, li)])))
 			}
